@@ -554,6 +554,8 @@ def run(chk):
     chk.guard(variants.apply, chk, "C06-R6", [("irispie.simultaneous._simulate", "Inlay.simulate")])
     from .. import unused as _unused
     chk.guard(_unused.apply, chk, "C06-R91")
+    from . import c07 as _c07
+    chk.guard(_c07.rule_r2, chk, rid="C06-R13")
     from .. import slatables as _slatables
     chk.guard(_slatables.apply, chk, "C06-R12", (("irispie.simultaneous._slatable_protocols", "_slatable_for_simulate_or_kalman_filter"),))
     from .. import endpoints as _endpoints
